@@ -49,7 +49,7 @@ def dump_tree(node, store):
 
 def tags_arg(op, pool):
     """op[6] (optional) says in which form the tags are handed to add_field: "list" (default), "str", "none",
-    "tuple", "frozenset", "set" (a fresh set) or "shared:<k>": ONE set object per k for the whole case (and its
+    "tuple", "frozenset", "set" (a fresh set), "gen" / "map" / "iter" (one-shot iterators) or "shared:<k>": ONE set object per k for the whole case (and its
     pre-history), created from the tags of its first use and passed again, as the same object, later."""
     names = [tname(t) for t in op[5]]
     mode = op[6] if len(op) > 6 else "list"
@@ -63,6 +63,12 @@ def tags_arg(op, pool):
         return frozenset(names)
     if mode == "set":
         return set(names)
+    if mode == "gen":                      # one-shot iterators: can be consumed only once
+        return (x for x in names)
+    if mode == "map":
+        return map(str, names)
+    if mode == "iter":
+        return iter(names)
     if mode.startswith("shared:"):
         k = mode[7:]
         if k not in pool:
